@@ -9,11 +9,33 @@ ALL = ['C%02d' % i for i in range(1, 19)]
 TRUST = ('Trusted base: rustc 1.72.1 MIR construction; library callees (ckb-types, merkle-mountain-range, rocksdb, std) '
          'behave as documented; CFG over-approximates feasible paths; heap/DB value flows are not tracked. ')
 
+from rules.census_fns import CENSUS  # noqa
+
+
+def ref_sentence(pid):
+    fns = sorted({f.lstrip('+~!').split('@')[0] for f in CENSUS.get(pid, [])})
+    if not fns:
+        return '', ''
+    short = ', '.join(x.split(' as ')[-1].replace('>::', '::') if x.startswith('<') else x for x in fns[:6]) + (' …' if len(fns) > 6 else '')
+    return (' Plus %s.ref (exit census against a reviewed reference, DESIGN.md §3): for %d functions of this property (%s) every reviewed '
+            'rejection is still present with the same trigger, every success / state-changing call carries at least the reviewed '
+            'conditions, and reviewed value expressions and durable writes are unchanged — insensitive to renaming, reordering, '
+            'logging and helper extraction.' % (pid, len(fns), short),
+            ' The .ref rule is relative to the reviewed reference (rules/census_table.json); that the reference is right was '
+            'established by reading, not by the checker.')
+
+
 checks = []
 for pid in ALL:
     if pid not in CLAIMS:
         continue
-    c = CLAIMS[pid]
+    c = dict(CLAIMS[pid])
+    _t, _n = ref_sentence(pid)
+    if '.ref' not in c['text']:
+        c['text'] = c['text'] + _t
+    c['note'] = c['note'] + _n
+    if _t and 'exit census' not in c['technique']:
+        c['technique'] = c['technique'] + '; exit census (returns, control-dependence conditions, effects; helpers inlined at MIR level) compared with a reviewed reference'
     checks.append({
         'property_id': pid,
         'quick_cmd': './lcv check %s --tier quick' % pid,
@@ -47,7 +69,7 @@ m = {
         'path': 'lcv',
         'serves_properties': [c['property_id'] for c in checks],
         'kind_free_text': 'repository-specific static analysis: all-paths rules (guard-flow typestate, dominance, who-may-call, '
-                          'lock regions, variant tables, layout agreement, abort-site discharge) over rustc-1.72.1 MIR of the real bin target',
+                          'lock regions, variant tables, layout agreement, abort-site discharge, exit census against a reviewed reference) over rustc-1.72.1 MIR of the real bin target',
     }],
     'checks': checks,
     'not_applicable': na,
